@@ -57,5 +57,7 @@ def run(ctx):
     except ImportError:
         pass
     ctx.not_decided("centre kept, circular case sound, tightness (float geometry of the ellipse/cell overlap test)")
+    from rules import cancellation
+    cancellation.check(ctx, ctx.crate("rel"), ['nested::elliptical_cone_coverage', 'nested::elliptical_cone_coverage_custom', 'nested::Layer::elliptical_cone_coverage', 'nested::Layer::elliptical_cone_coverage_custom'], floor=68)
     from rules import controls
     controls.guard_controls(ctx)
